@@ -301,6 +301,10 @@ class Ev:
 		if z3.is_false(cond):
 			return
 		full = z3.And(*self.guards, cond) if self.guards else cond
+		if z3.is_true(cond) and not self.guards:
+			if on_exit is not None:
+				on_exit()
+			raise RaiseSignal(ExcVal(None, cname=excname))
 		if quick_unsat(self.st.pc + [full]):
 			self.st.assume(z3.Not(full))
 			return
@@ -370,6 +374,42 @@ class Ev:
 		if isinstance(ty, TDict) and isinstance(v.ty, TDict) and v.is_conc() and not v.conc:
 			return Val(ty, ty.empty(), {})
 		raise EngineError(f'cannot coerce {v.ty} to {ty} in {self.fn.label}')
+
+	def narrow(self, v: Val) -> Val:
+		"""A union-typed value used where one alternative is required: project to the only alternative the path condition allows."""
+		if not isinstance(v.ty, TUnion):
+			return v
+		feas = [a for a in v.ty.alts if not quick_unsat(self.st.pc + self.guards + [v.ty.is_a(a, v.term)], 60)]
+		if len(feas) == 1:
+			return Val(feas[0], v.ty.proj(feas[0], v.term))
+		if not feas:  # contradictory context (e.g. a guarded clause on a path where the guard is false): any reading will do
+			return Val(v.ty.alts[0], v.ty.proj(v.ty.alts[0], v.term))
+		return v
+
+	def dispatch(self, v: Val, f: Callable[[Val], Val]) -> Val:
+		"""Apply f per feasible alternative of a union value (guarded), merging the results."""
+		assert isinstance(v.ty, TUnion)
+		saved = list(self.guards)
+		outs: list[tuple[Any, Val]] = []
+		try:
+			for a in v.ty.alts:
+				tag = v.ty.is_a(a, v.term)
+				if quick_unsat(self.st.pc + saved + [tag], 60):
+					continue
+				self.guards[:] = saved + [tag]
+				outs.append((tag, f(Val(a, v.ty.proj(a, v.term)))))
+		finally:
+			self.guards[:] = saved
+		if not outs:
+			if self.mode == 'spec':
+				a0 = v.ty.alts[0]
+				return f(Val(a0, v.ty.proj(a0, v.term)))
+			raise Infeasible()
+		res = outs[-1][1]
+		for tag, o in reversed(outs[:-1]):
+			o2, r2 = self.unify(o, res)
+			res = Val(o2.ty, z3.If(tag, o2.term, r2.term))
+		return res
 
 	def unwrap(self, v: Val) -> Val:
 		"""Optional[T] used as T (after a None test in the code)."""
@@ -574,7 +614,13 @@ class Ev:
 	def e_UnaryOp(self, n: ast.UnaryOp) -> Val:
 		if isinstance(n.op, ast.Not):
 			return Val(BOOL, z3.Not(self.truth(n.operand)))
-		v = self.eval(n.operand)
+		v = self.narrow(self.eval(n.operand))
+		if isinstance(v.ty, TUnion):
+			return self.dispatch(v, lambda x: self.unary(n.op, x))
+		return self.unary(n.op, v)
+
+	def unary(self, op: ast.unaryop, v: Val) -> Val:
+		n = ast.UnaryOp(op, ast.Constant(0))
 		if v.is_conc() and isinstance(v.conc, (int, float)) and not isinstance(v.ty, TFloat):
 			return self.lift(-v.conc if isinstance(n.op, ast.USub) else +v.conc)
 		if isinstance(n.op, ast.USub):
@@ -651,7 +697,11 @@ class Ev:
 		return Val(a.ty, z3.If(c, a.term, b.term))
 
 	def e_BinOp(self, n: ast.BinOp) -> Val:
-		a, b = self.eval(n.left), self.eval(n.right)
+		a, b = self.narrow(self.eval(n.left)), self.narrow(self.eval(n.right))
+		if isinstance(a.ty, TUnion):
+			return self.dispatch(a, lambda x: self.binop(x, n.op, b, n) if not isinstance(b.ty, TUnion) else self.dispatch(b, lambda y: self.binop(x, n.op, y, n)))
+		if isinstance(b.ty, TUnion):
+			return self.dispatch(b, lambda y: self.binop(a, n.op, y, n))
 		return self.binop(a, n.op, b, n)
 
 	def binop(self, a: Val, op: ast.operator, b: Val, n: ast.AST | None = None) -> Val:
@@ -685,7 +735,8 @@ class Ev:
 				return Val(INT, z3.If(z3.And(y < 0, r != 0), r + y, r))
 			if isinstance(op, ast.Div):
 				self.exit_if(y == 0, 'ZeroDivisionError')
-				return Val(FLOAT, self.ffun('fdiv', 2)(self.i2f(x), self.i2f(y)))
+				# int / int is CPython's correctly rounded true division: NOT float(x) / float(y) for operands beyond 2**53
+				return Val(FLOAT, z3.Function('itruediv', z3.IntSort(), z3.IntSort(), FLOAT.sort())(x, y))
 			names = {ast.BitOr: 'int_or', ast.BitAnd: 'int_and', ast.BitXor: 'int_xor', ast.LShift: 'int_shl', ast.RShift: 'int_shr'}
 			if type(op) in names:
 				if isinstance(op, (ast.LShift, ast.RShift)):
@@ -715,7 +766,10 @@ class Ev:
 		return z3.Function(name, *([FLOAT.sort()] * arity), FLOAT.sort())
 
 	def i2f(self, t: Any) -> Any:
-		return z3.Function('i2f', z3.IntSort(), FLOAT.sort())(t)
+		r = z3.Function('i2f', z3.IntSort(), FLOAT.sort())(t)
+		# float fact (trusted): int -> float conversion gives zero exactly for 0
+		self.st.assume(z3.Function('fiszero', FLOAT.sort(), z3.BoolSort())(r) == (t == 0))
+		return r
 
 	def str_repeat(self, s: Val, n: Val) -> Val:
 		if n.is_conc():
@@ -777,6 +831,7 @@ class Ev:
 		if isinstance(op, (ast.In, ast.NotIn)):
 			r = self.contains(b, a)
 			return r if isinstance(op, ast.In) else z3.Not(r)
+		a, b = self.narrow(a), self.narrow(b)
 		if isinstance(a.ty, TBool):
 			a = self.coerce(a, INT)
 		if isinstance(b.ty, TBool):
@@ -790,6 +845,7 @@ class Ev:
 		raise EngineError(f'comparison {type(op).__name__} on {a.ty}, {b.ty}')
 
 	def contains(self, container: Val, x: Val) -> Any:
+		container, x = self.narrow(container), self.narrow(x)
 		t = container.ty
 		if container.is_conc() and x.is_conc():
 			return z3.BoolVal(x.conc in container.conc)
@@ -882,6 +938,7 @@ class Ev:
 		return self.index(base, idx)
 
 	def index(self, base: Val, idx: Val) -> Val:
+		base, idx = self.narrow(base), self.narrow(idx)
 		if isinstance(base.ty, TOpt):
 			base = self.unwrap(base)
 		t = base.ty
@@ -940,6 +997,7 @@ class Ev:
 		return lo, hi
 
 	def slice(self, base: Val, sl: ast.Slice) -> Val:
+		base = self.narrow(base)
 		t = base.ty
 		if isinstance(t, TOpt):
 			base = self.unwrap(base)
